@@ -220,6 +220,7 @@ def run(ctx):
         for df in (4, 5, 20, 21):
             tasks += [("fields", (cfg, df, [f], ctx.seed)) for f in range(8)]
         tasks.append(("misc", (cfg, ctx.seed)))
+        tasks.append(("seqx", (cfg, 2)))
     ctx.pmap(w_any, tasks)
     ctx.cov["exhaustive"] = True
     ctx.cov["configurations"] = cfgs
@@ -227,10 +228,38 @@ def run(ctx):
                     {"kind": "ic", "rem": 37, "msg": F.df11(0x406B90, 5, 37)}]
 
 
+def seq_thunks(cfg):
+    """same address with different CA / interrogator code; identity codes 0000, 7777 and X-bit variants; FS/DR/UM frames."""
+    th = []
+    for ca, ic in ((5, 0), (4, 5), (7, 37), (5, 79), (0, 90)):
+        msg = F.df11(0x3C6DD0, ca, ic)
+        th.append(("DF11_ca%d_ic%d" % (ca, ic), (lambda m=msg, r=ic: judge(cfg, "ic", (r, m)))))
+        th.append(("DF11_capability_ca%d" % ca, (lambda m=msg, c=ca: judge(cfg, "ca", (c, m)))))
+    for code in (0, 0x40, 8191, 0x0AAA, 0x1555):
+        for carrier in ("DF5", "TC28"):
+            msg = id_frame(carrier, code, 1)
+            th.append(("%s_id%04X" % (carrier, code), (lambda c=carrier, k=code, m=msg: judge(cfg, "id", (c, k, m)))))
+    return th
+
+
+def w_seqx(arg):
+    from engine.util import explore_sequences
+    cfg, depth = arg
+    acc = Acc()
+    explore_sequences(acc, seq_thunks(cfg), depth, cfg)
+    return acc.res()
+
+
 def w_any(t):
+    if t[0] == "seqx":
+        return w_seqx(t[1])
     return {"ids": w_ids, "fields": w_fields, "misc": w_misc}[t[0]](t[1])
 
 
 def replay(case):
+    if case["kind"] == "seqx":
+        from engine.util import replay_sequence
+        s = replay_sequence(seq_thunks(case["tag"]), case["sequence"])
+        return [(s, case)] if s else []
     s = judge(case["cfg"], case["kind"], tuple(case["p"]))
     return [(s, case)] if s else []
